@@ -218,8 +218,8 @@ impl Rank {
         Self(buf)
     }
 
-    fn count_zeros(&self) -> u32 {
-        self.0.iter().copied().map(u64::count_zeros).sum()
+    fn count_ones(&self) -> u32 {
+        self.0.iter().copied().map(u64::count_ones).sum()
     }
 
     fn is_all_zeros(&self) -> bool {
@@ -306,7 +306,9 @@ pub fn overlay_feature_variations(
 
     let mut items = Vec::new();
     let mut sorted = boxmap.into_iter().collect::<Vec<_>>();
-    sorted.sort_by_key(|(_, rank)| rank.count_zeros());
+    // most contributing rules first, like fontTools' `-popcount`. Counting zeros instead is not
+    // equivalent once ranks have different word counts (more than 64 rules).
+    sorted.sort_by_key(|(_, rank)| std::cmp::Reverse(rank.count_ones()));
     for (box_, mut rank) in sorted {
         if rank.is_all_zeros() {
             continue;
